@@ -43,7 +43,7 @@ def gen_compositions(r: Run, T):
              [("C", 100), ("H", 200), ("N", 30), ("O", 40), ("S", 2)], [("K", 3)], [("Ne", 5)], [("Lu", 2), ("O", 3)]]
     if thorough:
         # the exact oracle raises polynomials to these powers by repeated multiplication: minutes per case
-        named += [[("C", 600), ("H", 1200), ("O", 600)], [("C", 1000), ("H", 1600), ("N", 280), ("O", 300), ("Fe", 1)]]
+        named += [[("C", 600), ("H", 1200), ("O", 600)], [("C", 254), ("H", 377), ("N", 65), ("O", 75)]]
     comps += named
     counts = [0, 1, 2, 3, 5, 17, 64, 100]
     k = 0
@@ -218,8 +218,8 @@ def run_c03_c09(r: Run, prop):
     for comp in comps:
         mass = sum(T[s]["mono"] * n for s, n in comp)
         for req in (reqs if len(comp) <= 3 else rng.sample(reqs, 3)):
-            if mass > 20000 and req in ("n:150", "n:300") and not thorough:
-                continue
+            if mass > 4000 and req in ("n:150", "n:300"):
+                continue   # exact evaluation at order 150-300 on thousands of atoms: hours
             z = rng.choice([0, 0, 1, 2, -1, 3, -3])
             cases.append((comp, req, z, PROTON, rng.choice(["vec", "map"])))
     if prop == "C09":
